@@ -119,12 +119,14 @@ def r6b(fb, rep):
     entry = [c for c in b.calls() if c.res.rsplit("::", 1)[1] == "entry" and "HashMap" in c.res]
     # the Occupied side of the match on the entry
     occ_region = None
+    vac_region = set()
     for bb, place, m, other in enum_switches_any(b):
         if entry and not place[1] and place[0] == entry[0].dest[0] and len(m) + (1 if other is not None else 0) >= 2:
             names = {0: "Occupied", 1: "Vacant"}
             occ = m.get(0, other)
             vac = m.get(1, other)
             occ_region = b.reachable(occ, avoid_blocks=[bb]) - b.reachable(vac, avoid_blocks=[bb])
+            vac_region = b.reachable(vac, avoid_blocks=[bb]) - b.reachable(occ, avoid_blocks=[bb])
     if occ_region is None:
         rep.anchor_lost(R, "match on inline_modules.entry(module) in add_module")
         return
@@ -162,12 +164,26 @@ def r6b(fb, rep):
         if ("op", "Not") in srcs:
             differ = false_t if is_ne else true_t
         guarded[bb] = differ
-    ok_all = bool(guarded) and all(any(flow.only_via_edge(b, c.bb, (bb, t)) for bb, t in guarded.items()) for c in inv)
+    inv_occ = [c for c in inv if c.bb not in vac_region]
+    ok_all = bool(guarded) and bool(inv_occ) and all(any(flow.only_via_edge(b, c.bb, (bb, t)) for bb, t in guarded.items()) for c in inv_occ)
     if ok_all:
         rep.ok(R, "add_module: invalidate is reached only over the `stored text != new text` edge (an identical re-load is a no-op)")
     else:
         rep.violation(R, "invalidate-without-change-test", "add_module invalidates module_text without first finding the new text different from the stored one: "
                       "re-submitting identical source starts a new revision and every module body is evaluated again", inv[0].where())
+    # (after finding 34) a module that is added for the first time may already have been looked for: the memoised "not found" of
+    # module_text / import / global must be invalidated too, or `load_script` of a module that an earlier program failed to
+    # import keeps failing.  Every path from the insertion into the vacant entry to a return passes invalidate.
+    vins = [c for c in b.calls() if c.bb in vac_region and (c.res.endswith("VacantEntry::<'a, K, V, A>::insert") or c.res.endswith("VacantEntry::<'a, K, V>::insert") or "VacantEntry" in c.res and c.res.rsplit("::", 1)[1] in ("insert", "insert_entry"))]
+    if not vins:
+        rep.violation(R, "vacant-entry-not-filled", "add_module does not store the source of a module it sees for the first time", b.where())
+    else:
+        badv = [c for c in vins if c.target is not None and (b.reachable(c.target, avoid_blocks=[x.bb for x in inv]) & rets)]
+        if badv:
+            rep.violation(R, "first-add-without-invalidate", "add_module stores the source of a new module and returns without invalidating module_text: a module that was imported (and not "
+                          "found) before it was added stays `not found`", badv[0].where())
+        else:
+            rep.ok(R, "add_module: the first addition of a module also invalidates module_text")
     # who writes State.inline_modules
     ST = "gluon::query::State"
     writers = set()
